@@ -113,6 +113,9 @@ func (c URLCfg) AtoS() float64 {
 
 func (c URLCfg) StartNr() int64 {
 	if c.Snr != nil {
+		if *c.Snr == -1 {
+			return 1 // documented: "-1 means default implicit number which == 1" (no startNumber attribute)
+		}
 		return int64(*c.Snr)
 	}
 	return 0
